@@ -389,9 +389,10 @@ def parse_program(text, verbose_text=None):
         rest = m.group(2)
         if kind in ('const', 'static') and not rest.rstrip().endswith('{'):
             # const NAME: TY = const VALUE;
-            mm = re.match(r'^(.*?): (.*) = const (.*);$', rest, re.S)
+            k0 = _top_colon(rest)
+            mm = re.match(r'^(.*) = const (.*);$', rest[k0 + 2:], re.S) if k0 is not None else None
             if mm:
-                prog.consts[mm.group(1)] = ('lit', mm.group(3), mm.group(2))
+                prog.consts[rest[:k0]] = ('lit', mm.group(2), mm.group(1))
             i += 1
             continue
         # find end of item: a line that is exactly '}'
@@ -413,16 +414,16 @@ def parse_program(text, verbose_text=None):
             rm = re.match(r' -> (.*) \{$', rest[close + 1:])
             fn.ret_ty = rm.group(1) if rm else '()'
         else:
-            mm = re.match(r'^(.*?): (.*) = \{$', rest, re.S)
-            name = mm.group(1) if mm else rest
+            k0 = _top_colon(rest)
+            name = rest[:k0] if k0 is not None else rest
             fn = Fn(name, kind)
-            fn.ret_ty = mm.group(2) if mm else None
+            fn.ret_ty = rest[k0 + 2:].rsplit(' = {', 1)[0] if k0 is not None else None
         fn.line = i + 1
         if vlines is not None:
             vm = _hdr_re.match(vlines[i])
             if vm:
                 vr = vm.group(2)
-                fn.vname = vr[:(vr.index('(') if not vr.startswith('<') else _fn_name_end(vr))] if kind == 'fn' else vr.split(': ')[0]
+                fn.vname = vr[:(vr.index('(') if not vr.startswith('<') else _fn_name_end(vr))] if kind == 'fn' else vr[:_top_colon(vr) or len(vr)]
         cur = None
         cur_lines = None
         for off, bl in enumerate(body):
@@ -469,6 +470,19 @@ def parse_program(text, verbose_text=None):
             prog.statics.setdefault(name, []).append(fn)
         i = j + 1
     return prog
+
+
+def _top_colon(rest):
+    """index of the first ': ' that is not inside <...> (impl paths contain 'file:l:c: l:c')"""
+    d = 0
+    for k, c in enumerate(rest):
+        if c == '<':
+            d += 1
+        elif c == '>' and k > 0 and rest[k - 1] not in '-=':
+            d -= 1
+        elif c == ':' and d == 0 and rest[k:k + 2] == ': ' and rest[k - 1] != ':':
+            return k
+    return None
 
 
 def _fn_name_end(rest):
